@@ -812,7 +812,12 @@ impl RLN {
         }
         let proof = ArkProof::deserialize_compressed(&mut Cursor::new(&input_byte[..128]))?;
 
-        let (proof_values, _) = deserialize_proof_values(&input_byte[128..]);
+        let (proof_values, read) = deserialize_proof_values(&input_byte[128..]);
+
+        // Values at or above the field order are not accepted as aliases of their reduction
+        if serialize_proof_values(&proof_values) != input_byte[128..128 + read] {
+            return Ok(false);
+        }
 
         let verified = verify_proof(&self.verification_key, &proof, &proof_values)?;
 
@@ -978,6 +983,10 @@ impl RLN {
             ArkProof::deserialize_compressed(&mut Cursor::new(&serialized[..128].to_vec()))?;
         all_read += 128;
         let (proof_values, read) = deserialize_proof_values(&serialized[all_read..]);
+        // Values at or above the field order are not accepted as aliases of their reduction
+        if serialize_proof_values(&proof_values) != serialized[all_read..all_read + read] {
+            return Ok(false);
+        }
         all_read += read;
 
         let signal_len = usize::try_from(u64::from_le_bytes(
@@ -1061,6 +1070,10 @@ impl RLN {
             ArkProof::deserialize_compressed(&mut Cursor::new(&serialized[..128].to_vec()))?;
         all_read += 128;
         let (proof_values, read) = deserialize_proof_values(&serialized[all_read..]);
+        // Values at or above the field order are not accepted as aliases of their reduction
+        if serialize_proof_values(&proof_values) != serialized[all_read..all_read + read] {
+            return Ok(false);
+        }
         all_read += read;
 
         let signal_len = usize::try_from(u64::from_le_bytes(
